@@ -190,9 +190,10 @@ SPEC = dict(
          "pipelines generic/SSE2/AVX2 and the dispatcher forced to each arm; lengths 0..40, around multiples of 16/32, "
          "993..4200 with L mod 32 != 0, around 1024k; motif widths 0..80; 10% SSE2 pipeline with C in 16/32/48; 10% DenseMatrix "
          "histories (new/with_capacity/resize/reserve/fill/clone/from_rows incl. ragged/Index incl. out of range/iterators) for "
-         "u8/u32/f32 x C in 5,7,16,21,32,48. Every case runs in two AddressSanitizer builds (dev profile and --release; spare Vec "
-         "capacity of read-only arguments poisoned) and in the plain debug build (debug_assert alignment checks, misaligned-pointer checks), each in a child "
-         "process that is restarted after a death. Per op the harness records the parameter tuple the kernel is entered with "
+         "u8/u32/f32 x C in 5,7,16,21,32,48. Every case runs in four child processes: two AddressSanitizer builds (dev profile and "
+         "--release; spare Vec capacity of read-only arguments poisoned) and twice in the plain debug build with a guard-page "
+         "allocator for every DenseMatrix (end-aligned: over-runs fault; start-aligned: under-runs fault) (debug_assert alignment checks, misaligned-pointer checks), each child is "
+         "restarted after a death (blamed on the op that was running) and killed after 90 s without progress (HANG). Per op the harness records the parameter tuple the kernel is entered with "
          "(L, rows, capacity, wrap, M, strides, row range) and the outcome; the driver evaluates the extracted wrapper + footprint "
          "model on that tuple: PROPFAIL = sanitizer report / crash (SIGSEGV on a guard page, abort) / damaged canary in the spare capacity of a "
          "destination / symbol code >= K left in a caller buffer; DIFF = guard outcome "
